@@ -966,6 +966,7 @@ pub fn run_case_on<T: Target>(case: &Case, pin: bool) -> RunResult {
     let mut panicked_before: Option<String> = None;
     let mut promise: Vec<Option<(usize, isize, String)>> = vec![None, None, None, None];
     for (opi, op) in case.ops.iter().enumerate() {
+        crate::HEARTBEAT.fetch_add(1, std::sync::atomic::Ordering::Relaxed);
         let mut expect: Option<String> = None;
         let outcome = catch_unwind(AssertUnwindSafe(|| -> String {
             macro_rules! m {
